@@ -207,7 +207,7 @@ func registerGobModel(e *Engine) {
 		if !ok {
 			return mkError(fr, "gob: attempt to decode into a non-pointer")
 		}
-		if !types.Identical(pt.Elem(), blob.t) {
+		if !types.Identical(pt.Elem(), blob.t) && !types.Identical(pt.Elem().Underlying(), blob.t.Underlying()) {
 			panic(unsupported("gob model: decode into a different type than encoded"))
 		}
 		dst := e.v.(*value)
